@@ -57,12 +57,15 @@ class QueryPlugin(Plugin):
         return qprops.nontrivial_q(self.pid, case)
 
     def stats(self, case, obs, acc):
-        recs, d, strs, pairs = case
+        recs, d, strs, pairs = case[:4]
         acc["records_hist"] = acc.get("records_hist", {})
         k = str(min(len(recs), 8))
         acc["records_hist"][k] = acc["records_hist"].get(k, 0) + 1
         acc["strings"] = acc.get("strings", 0) + len(strs)
         acc["calls"] = acc.get("calls", 0) + (len(obs[1]) if len(obs) > 1 else 0)
+        bm = acc.setdefault("build_mode_hist (0 constructor, 1 add_record, 2 add_prefix + merges)", {})
+        mk = str(case[4]) if len(case) > 4 else "0"
+        bm[mk] = bm.get(mk, 0) + 1
         dl = acc.setdefault("delimiters", {})
         dl[d] = dl.get(d, 0) + 1
         if len(obs) > 1 and obs[1]:
@@ -74,12 +77,12 @@ class QueryPlugin(Plugin):
             acc["none_results"] = acc.get("none_results", 0) + none
 
     def sample(self, case, obs):
-        recs, d, strs, pairs = case
+        recs, d, strs, pairs = case[:4]
         return {"records": plain(recs), "delimiter": d, "strings": strs[:6], "pairs": plain(pairs), "answers_observed": len(obs[1]) if len(obs) > 1 else 0}
 
     def explain(self, case, obs, model):
         """Name the first differing queries (battery order)."""
-        recs, d, strs, pairs = case
+        recs, d, strs, pairs = case[:4]
         names = []
         sq = ["parse_uri", "parse_uri(strict)", "is_uri", "parse_curie", "parse_curie(strict)", "is_curie", "expand_all", "expand_all(strict)",
               "parse", "parse(strict)", "compress_strict", "expand_strict"]
